@@ -97,7 +97,7 @@ class C16:
             "and the context is printed; oracle: no sanitizer report and the tree equals the language model (declared sub-"
             "options and defaults in every new instance, declared annotations). (b) two contexts from the same declarations, "
             "and two instances of one multi section, driven by all interleavings (total length <= 6) of two operation lists "
-            "(parse, setters, setcomment, print-callback and validate registration, free-form keys); oracle: every step's "
+            "(parse, setters, setcomment, print-callback and validate registration, free-form keys; directed: print filters on one instance, siblings compared in the print of the parent); oracle: every step's "
             "result and the acting context's/instance's dump and final print equal its solo run. Non-trivial = instance "
             "created after poisoning at depth >= 2, or an interleaving alternating at least twice; distinct = case hashes")
     assumptions = ["function pointers in declarations (callbacks) are not 'declaration memory' and stay valid",
@@ -296,9 +296,16 @@ class C16:
         s.add("getsec", 1, hx("tm=c"), 42)
         ib = s.add("print", 41)
         ic = s.add("print", 42)
+        iw = s.add("print", 1)          # the siblings as they appear in the print of the whole context
         s.add("init", 2, 0, F_COMMENTS)
         s.add("addtsec", 2, hx("tm"), hx("b"), 43)
         ir = s.add("print", 43)
+        s.add("init", 3, 0, F_COMMENTS)
+        for ttl in ("a", "b"):
+            s.add("addtsec", 3, hx("tm"), hx(ttl), 44)
+        s.add("parse_buf", 3, hx("tm c { }\n"))
+        iwr = s.add("print", 3)
+        s.add("free", 3)
         s.add("free", 1)
         s.add("free", 2)
         r = get_ex("asan").run(s)
@@ -312,6 +319,13 @@ class C16:
                 fail = Failure("privacy/sibling-created-later-differs", "after %r on instance a, the later instance %s prints %r; a fresh instance prints %r" % (
                     case["on_a"], nm, bytes.fromhex(t[idx]["text"]).decode("latin-1"), bytes.fromhex(ref).decode("latin-1")))
                 break
+        if fail is None:
+            import re
+            whole, wref = (bytes.fromhex(t[k]["text"]).decode("latin-1") for k in (iw, iwr))
+            cut = lambda x: x[re.search(r'^tm "?b"? \{', x, re.M).start():]
+            if cut(whole) != cut(wref):
+                fail = Failure("privacy/siblings-differ-in-print-of-parent", "after %r on instance a, the print of the context shows the later instances as %r; without: %r" % (
+                    case["on_a"], cut(whole), cut(wref)))
         return Outcome(classes=["privacy"], nontrivial=True, failure=fail, sample={"on_a": case["on_a"]})
 
     def check_private_path(self, case, get_ex):
@@ -356,7 +370,10 @@ class C16:
             [["printfunc", 1, H("tm|zl"), 1]], [["setcomment", 1, H("tm|y"), H("only a")]], [["setcomment", 40, H("x"), H("only a")]],
             [["setstr", 1, H("tm|y"), 0, H("only a")]], [["addlist", 40, H("zl"), "s", 1, H("only a")]],
             [["addtsec", 40, H("deep"), H("only-a")]], [["setmulti", 1, H("tm=a|zl"), 2, H("m1"), H("m2")]],
-            [["printfunc", 1, H("tm|x"), 1], ["setcomment", 1, H("tm|x"), H("c")], ["setint", 1, H("tm|x"), 0, H("99")]])]
+            [["printfunc", 1, H("tm|x"), 1], ["setcomment", 1, H("tm|x"), H("c")], ["setint", 1, H("tm|x"), 0, H("99")]],
+            # a print filter of one instance is that instance's own
+            [["filterk", 40, 0, 1, H("x")]], [["filterk", 40, 1, 2, H("y"), H("zl")]], [["filterk", 40, 2, 1, H("deep")], ["addtsec", 40, H("deep"), H("only-a")]],
+            [["filterk", 1, 3, 1, H("i")], ["filterk", 40, 4, 2, H("x"), H("y")]])]
 
     def check_case(self, case, get_ex):
         if case.get("kind") == "privacy":
